@@ -260,6 +260,78 @@ def clause_e(facts, rep):
     rep.extra['scalar_reciprocal_sites'] = n
 
 
+def clause_kind_dispatch(facts, rep):
+    """the serializer hands the payload of a number node to the writer of its own kind: in the switch over the node's
+    number sub-type, the arm of the unsigned tag reaches only a writer whose value parameter is an unsigned 64-bit
+    integer fed by an accessor returning one, the signed tag a signed 64-bit one, the real tag a double.  (A uint64
+    above INT64_MAX pushed through a signed parameter prints as a negative number.)  Arms are the blocks reachable
+    from a case label up to the break / goto / return that ends them, so fall-through is followed."""
+    tags = {}
+    for en in facts.enums:
+        if en.get('qn', '').endswith('TypeFlag'):
+            for c in en.get('values', []):
+                tags[int(c['v'])] = c['name']
+    WANT = {'kUint': ('unsigned 64-bit', lambda t: t in ('uint64_t', 'unsigned long', 'unsigned long long', 'size_t')),
+            'kSint': ('signed 64-bit', lambda t: t in ('int64_t', 'long', 'long long')),
+            'kReal': ('double', lambda t: t == 'double')}
+    n = 0
+    for f in facts.functions:
+        if f.short != 'SerializeImpl':
+            continue
+        for b in f.d['blocks']:
+            t = b.get('term')
+            if not t or t['cls'] != 'SwitchStmt' or t.get('cond') is None:
+                continue
+            c = strip(t['cond'])
+            while c is not None and c.get('k') == 'cast':
+                c = strip(c['e'])
+            if c is None or c.get('k') != 'call' or c.get('cname') != 'GetType':
+                continue
+            rep.fn(f)
+            labels = [(s_, f.blocks[s_].get('case')) for s_ in b['succs'] if s_ is not None]
+            reach = {}
+            for s_, cv_ in labels:
+                seen, work = set(), [s_]
+                while work:
+                    x = work.pop()
+                    if x in seen or x is None:
+                        continue
+                    seen.add(x)
+                    tx = f.blocks[x].get('term')
+                    if tx and tx.get('cls') in ('BreakStmt', 'GotoStmt', 'ReturnStmt', 'ContinueStmt'):
+                        continue      # the arm ends here
+                    work.extend(f.blocks[x]['succs'])
+                reach[s_] = seen
+            common = set()
+            for s_, cv_ in labels:
+                if cv_ in (None, 'default'):
+                    continue
+                name = tags.get(int(cv_))
+                if name not in WANT:
+                    continue
+                arm = reach[s_] - common
+                writers = []
+                for x in sorted(arm):
+                    for st in f.blocks[x]['stmts']:
+                        for e in walk(st):
+                            if e.get('k') == 'call' and (e.get('cname') or '').endswith('toa') and len(e.get('args', [])) == 2:
+                                g = facts.by_id.get(e.get('cid'))
+                                pt = (g.params[1]['t'] if g is not None and len(g.params) == 2 else '').replace('const ', '').strip()
+                                a = strip(e['args'][1])
+                                while a is not None and a.get('k') == 'cast':
+                                    a = strip(a['e'])
+                                at = (a.get('t') or '').replace('const ', '').strip() if a is not None else ''
+                                writers.append((e, pt, at))
+                what, okf = WANT[name]
+                n += 1
+                good = len(writers) >= 1 and all(okf(pt) and okf(at) for _, pt, at in writers)
+                rep.check(good, 'E9.kind-dispatch', f.qn, 'case %s: %s' % (name, ', '.join(show(w[0]) for w in writers) or 'no writer'),
+                          locline(writers[0][0]['loc']) if writers else f.loc,
+                          'the %s payload must go through a %s accessor into a %s writer parameter; found parameter/argument types %s'
+                          % (name, what, what, [(pt, at) for _, pt, at in writers]), facts.config)
+    rep.require(n >= 3, 'C08: number sub-type dispatch of the serializer: %d arms found (3 expected)' % n)
+
+
 def run(rep, tier):
     configs = ['K1'] if tier == 'quick' else ['K1', 'K3', 'K4']
     for cfg in configs:
@@ -270,6 +342,7 @@ def run(rep, tier):
         clause_c(facts, rep)
         clause_d(facts, rep)
         clause_e(facts, rep)
+        clause_kind_dispatch(facts, rep)
         from .. import narrowing
         narrowing.check(facts, rep, 'E3.lossless-narrowing', ('itoa.h',), min_sites=1)
     rep.trust('clang 14 front end and constant evaluator', 'Intel intrinsic lane semantics in sv/sse_interp.py',
